@@ -431,3 +431,36 @@ def sh7(ctx: Ctx, shapes: Shapes):
             ctx.ob(rule, fi.qual, cons, not bad,
                    f"a value that can be None (shape {bad[0] if bad else ''}) is passed to a parameter declared `{txt}`: the callee "
                    "would fail with AttributeError/TypeError from its own body", where(fi, node), sample="not None on every path")
+
+
+def ex6(ctx: Ctx):
+    """EX6: an attribute read from a caught exception exists on every class the handler catches. `except UnicodeError as e:
+    e.reason` is an AttributeError for the plain UnicodeError the stdlib idna codec raises (only the Encode/Decode/Translate
+    subclasses carry .reason), i.e. an exception type the API does not promise, raised from inside the error path."""
+    import builtins
+    model = ctx.model
+    rule = "EX6"
+    ctx.rule(rule, floor=0, what="attributes read from a caught exception exist on the caught class")
+    n = 0
+    for fi in functions(model):
+        r = analyze(model, fi)
+        seen = set()
+        for e in r.by_kind("attr"):
+            o = e.obj
+            if o[0] != "exc" or id(e.node) in seen:
+                continue
+            seen.add(id(e.node))
+            names = [x.strip() for x in o[1].strip("()").split(",") if x.strip()]
+            classes = [getattr(builtins, x, None) for x in names]
+            if not classes or any(not (isinstance(c, type) and issubclass(c, BaseException)) for c in classes):
+                continue        # not a builtin exception class: its attributes are not known here
+            n += 1
+            ctx.instance(rule)
+            missing = [c.__name__ for c in classes if not hasattr(c, e.attr)]
+            ctx.ob(rule, fi.qual, f"{'/'.join(names)}.{e.attr}", not missing,
+                   f"`.{e.attr}` is read from an exception caught as {', '.join(names)}, but {missing} has no such attribute: the "
+                   "handler itself fails with AttributeError", where(fi, e.node), sample="attribute defined by the caught class")
+    # the rule has no site on the pinned tree: keep it honest with a built-in positive and negative example
+    assert not hasattr(UnicodeError, "reason") and hasattr(UnicodeEncodeError, "reason") and hasattr(ValueError, "args")
+    ctx.instance(rule)
+    ctx.ob(rule, "<package>", "exception attribute reads", True, sample=f"{n} read(s) inspected; self-check: UnicodeError has no .reason", nontrivial=False)
